@@ -19,9 +19,10 @@ def deref_args(res):
     st0 = res["st0"]
     for i, (p, a) in enumerate(zip(res["fn"]["params"], res["args"])):
         v = a
+        nm = param_name(p, i)
         if isinstance(v, VMutRef):
-            v = st0.env[v.place[0]]
-        out[param_name(p, i)] = v
+            v = res.get("pre_muts", {}).get(nm, st0.env[v.place[0]])
+        out[nm] = v
     return out
 
 
@@ -764,3 +765,438 @@ def sort_by_spec(c, a, st, v):
 def is_empty_spec(c, a, st, v):
     ok = isinstance(v, VBool) and v.f == ("cmp", "eq", t_len(a["self"].t))
     c.ob("ENS", "is_empty ⇔ len == 0", show_formula(v.f) if isinstance(v, VBool) else repr(v), ok, st)
+
+
+# ------------------------------------------------------------------ lax diagrams (C02, C04, C09, C10, C11)
+
+import lax_model
+from lax_model import freeze
+
+LH, LOH, LEDGE = inv.LH, inv.LOH, inv.LEDGE
+L_OH = "lax::open_hypergraph::OpenHypergraph::<O, A>"
+L_H = "lax::hypergraph::Hypergraph::<O, A>"
+
+
+def one(v):
+    if isinstance(v, VNat):
+        return ("fill", v.p, Poly.const(1))
+    return ("single", freeze(v))
+
+
+def post_self(c, st, name="self"):
+    for (nm, root) in c.res["muts"]:
+        if nm == name:
+            return st.env[root]
+    return None
+
+
+def hyp(v):
+    return v.f["hypergraph"] if v.ty == LOH else v
+
+
+def n_nodes(v):
+    return t_len(hyp(v).f["nodes"].t)
+
+
+def shifted_adjacency(L, n):
+    body = VRec(LEDGE, {"sources": VSeq(mk_shift(n, ("el", L, "sources"))),
+                        "targets": VSeq(mk_shift(n, ("el", L, "targets")))})
+    if L[0] == "empty":
+        return EMPTY
+    return ("lmap", L, freeze(body))
+
+
+def lax_coproduct_spec(c, st, r, f, g, what):
+    """r = f + g : everything of f, then everything of g with node references shifted by |f.nodes|."""
+    n = t_len(f.f["nodes"].t)
+    c.teq(st, f"{what}: node labels juxtaposed", r.f["nodes"].t, mk_concat([f.f["nodes"].t, g.f["nodes"].t]))
+    c.teq(st, f"{what}: edge labels juxtaposed", r.f["edges"].t, mk_concat([f.f["edges"].t, g.f["edges"].t]))
+    c.teq(st, f"{what}: hyperedges of f, then hyperedges of g shifted by |f.nodes|", r.f["adjacency"].t,
+          mk_concat([f.f["adjacency"].t, shifted_adjacency(g.f["adjacency"].t, n)]))
+    for i in (0, 1):
+        c.teq(st, f"{what}: pending unifications side {i}: f's, then g's shifted by |f.nodes|",
+              r.f["quotient"].items[i].t,
+              mk_concat([f.f["quotient"].items[i].t, mk_shift(n, g.f["quotient"].items[i].t)]))
+
+
+def lax_tensor_spec(c, st, r, f, g, what):
+    n = n_nodes(f)
+    c.teq(st, f"{what}: sources = f's then g's shifted by |f.nodes|", r.f["sources"].t,
+          mk_concat([f.f["sources"].t, mk_shift(n, g.f["sources"].t)]))
+    c.teq(st, f"{what}: targets = f's then g's shifted by |f.nodes|", r.f["targets"].t,
+          mk_concat([f.f["targets"].t, mk_shift(n, g.f["targets"].t)]))
+    lax_coproduct_spec(c, st, hyp(r), hyp(f), hyp(g), what)
+
+
+def same_lax_hypergraph(c, st, h1, h0, what, except_=()):
+    for fld in ("nodes", "edges", "adjacency"):
+        if fld not in except_:
+            c.teq(st, f"{what}: {fld} untouched", h1.f[fld].t, h0.f[fld].t)
+    if "quotient" not in except_:
+        for i in (0, 1):
+            c.teq(st, f"{what}: pending unifications untouched ({i})", h1.f["quotient"].items[i].t,
+                  h0.f["quotient"].items[i].t)
+
+
+def same_interfaces(c, st, r, f, what):
+    c.teq(st, f"{what}: sources untouched", r.f["sources"].t, f.f["sources"].t)
+    c.teq(st, f"{what}: targets untouched", r.f["targets"].t, f.f["targets"].t)
+
+
+@spec(f"{L_OH}::tensor", "Monoidal for lax::open_hypergraph::OpenHypergraph<O, A>>::tensor",
+      "BitOr<&lax::open_hypergraph::OpenHypergraph<O, A>> for &lax::open_hypergraph::OpenHypergraph<O, A>>::bitor")
+def lax_tensor(c, a, st, v):
+    f, g = list(a.values())[:2]
+    lax_tensor_spec(c, st, v, f, g, "tensor")
+
+
+@spec(f"{L_H}::coproduct")
+def lax_coproduct(c, a, st, v):
+    f, g = list(a.values())[:2]
+    lax_coproduct_spec(c, st, v, f, g, "coproduct")
+
+
+@spec("impl lax::hypergraph::Hypergraph<O, A>>::coproduct_assign")
+def lax_coproduct_assign(c, a, st, v):
+    lax_coproduct_spec(c, st, post_self(c, st), a["self"], a["rhs"], "coproduct_assign (= pure coproduct)")
+
+
+@spec("impl lax::open_hypergraph::OpenHypergraph<O, A>>::tensor_assign")
+def lax_tensor_assign(c, a, st, v):
+    lax_tensor_spec(c, st, post_self(c, st), a["self"], a["rhs"], "tensor_assign (= pure tensor)")
+
+
+@spec("impl lax::open_hypergraph::OpenHypergraph<O, A>>::append")
+def lax_append(c, a, st, v):
+    f, g = a["self"], a["rhs"]
+    p = post_self(c, st)
+    n = n_nodes(f)
+    lax_coproduct_spec(c, st, hyp(p), hyp(f), hyp(g), "append")
+    same_interfaces(c, st, p, f, "append")
+    c.teq(st, "append: returns rhs sources shifted by |self.nodes|", v.items[0].t, mk_shift(n, g.f["sources"].t))
+    c.teq(st, "append: returns rhs targets shifted by |self.nodes|", v.items[1].t, mk_shift(n, g.f["targets"].t))
+
+
+@spec("impl lax::open_hypergraph::OpenHypergraph<O, A>>::lax_compose")
+def lax_lax_compose(c, a, st, v):
+    f, g = a["self"], a["other"]
+    cond = [("eq", t_len(f.f["targets"].t), t_len(g.f["sources"].t))]
+    if is_fail(v):
+        c.rej(st, "lax_compose defined iff the boundary arities match", cond)
+        return
+    r = payload(v)
+    c.acc(st, "lax_compose defined iff the boundary arities match", cond)
+    lax_compose_wiring(c, st, r, f, g)
+
+
+def lax_compose_wiring(c, st, r, f, g):
+    n = n_nodes(f)
+    c.teq(st, "compose: sources are f's sources", r.f["sources"].t, f.f["sources"].t)
+    c.teq(st, "compose: targets are g's targets shifted by |f.nodes|", r.f["targets"].t, mk_shift(n, g.f["targets"].t))
+    h, fh, gh = hyp(r), hyp(f), hyp(g)
+    c.teq(st, "compose: node labels juxtaposed", h.f["nodes"].t, mk_concat([fh.f["nodes"].t, gh.f["nodes"].t]))
+    c.teq(st, "compose: edge labels juxtaposed", h.f["edges"].t, mk_concat([fh.f["edges"].t, gh.f["edges"].t]))
+    c.teq(st, "compose: hyperedges of f, then of g shifted", h.f["adjacency"].t,
+          mk_concat([fh.f["adjacency"].t, shifted_adjacency(gh.f["adjacency"].t, n)]))
+    # one unification per boundary position: f.targets[i] ~ g.sources[i] + n (which list holds which is free)
+    base = [mk_concat([fh.f["quotient"].items[i].t, mk_shift(n, gh.f["quotient"].items[i].t)]) for i in (0, 1)]
+    ft, gs = f.f["targets"].t, mk_shift(n, g.f["sources"].t)
+    q0, q1 = h.f["quotient"].items[0].t, h.f["quotient"].items[1].t
+    ok = (terms_equal(st, q0, mk_concat([base[0], ft])) and terms_equal(st, q1, mk_concat([base[1], gs]))) or \
+         (terms_equal(st, q0, mk_concat([base[0], gs])) and terms_equal(st, q1, mk_concat([base[1], ft])))
+    c.ob("ENS", "compose: the i-th target of f is unified with the i-th source of g (shifted), position-aligned",
+         f"quotient = old pairs ++ (f.targets, g.sources + |f.nodes|): got ({show_term(normalise(st, q0))[:200]}, {show_term(normalise(st, q1))[:200]})", ok, st)
+
+
+@spec("Arrow for lax::open_hypergraph::OpenHypergraph<O, A>>::compose",
+      "Shr<&lax::open_hypergraph::OpenHypergraph<O, A>> for &lax::open_hypergraph::OpenHypergraph<O, A>>::shr")
+def lax_compose(c, a, st, v):
+    f, g = list(a.values())[:2]
+    ty_f = mk_gather(st, hyp(f).f["nodes"].t, f.f["targets"].t)
+    ty_g = mk_gather(st, hyp(g).f["nodes"].t, g.f["sources"].t)
+    cond = [("teq", ty_f, ty_g)]
+    if is_fail(v):
+        c.rej(st, "lax composition is defined iff the boundary types match", cond)
+        return
+    r = payload(v)
+    c.acc(st, "lax composition is defined iff the boundary types match", cond)
+    lax_compose_wiring(c, st, r, f, g)
+
+
+@spec("Arrow for lax::open_hypergraph::OpenHypergraph<O, A>>::source")
+def lax_source(c, a, st, v):
+    f = a["self"]
+    c.teq(st, "source type = labels of the source nodes", v.t, ("gather", hyp(f).f["nodes"].t, f.f["sources"].t))
+
+
+@spec("Arrow for lax::open_hypergraph::OpenHypergraph<O, A>>::target")
+def lax_target(c, a, st, v):
+    f = a["self"]
+    c.teq(st, "target type = labels of the target nodes", v.t, ("gather", hyp(f).f["nodes"].t, f.f["targets"].t))
+
+
+def lax_discrete(c, st, r, w, what):
+    h = hyp(r)
+    c.teq(st, f"{what}: node labels as given", h.f["nodes"].t, w)
+    c.eq(st, f"{what}: no hyperedges", t_len(h.f["edges"].t), 0)
+    c.eq(st, f"{what}: no adjacency", t_len(h.f["adjacency"].t), 0)
+    c.eq(st, f"{what}: no pending unifications", t_len(h.f["quotient"].items[0].t) + t_len(h.f["quotient"].items[1].t), 0)
+
+
+@spec(f"{L_OH}::identity", "Arrow for lax::open_hypergraph::OpenHypergraph<O, A>>::identity")
+def lax_identity(c, a, st, v):
+    w = a["a"].t
+    c.teq(st, "identity: sources 0..n", v.f["sources"].t, mk_arange(0, t_len(w)))
+    c.teq(st, "identity: targets 0..n", v.f["targets"].t, mk_arange(0, t_len(w)))
+    lax_discrete(c, st, v, w, "identity")
+
+
+@spec(f"{L_OH}::spider", "Spider<array::vec::vec_array::VecKind> for lax::open_hypergraph::OpenHypergraph<O, A>>::spider")
+def lax_spider(c, a, st, v):
+    s_, t_, w = a["s"], a["t"], a["w"]
+    cond = [("eq", tgt(s_), t_len(w.t)), ("eq", tgt(t_), t_len(w.t))]
+    if is_fail(v):
+        c.rej(st, "lax spider accepts iff both legs land in the node list", cond)
+        return
+    r = payload(v)
+    c.acc(st, "lax spider accepts iff both legs land in the node list", cond)
+    c.teq(st, "spider: sources as given", r.f["sources"].t, tab(s_))
+    c.teq(st, "spider: targets as given", r.f["targets"].t, tab(t_))
+    lax_discrete(c, st, r, w.t, "spider")
+
+
+@spec("Spider<array::vec::vec_array::VecKind> for lax::open_hypergraph::OpenHypergraph<O, A>>::dagger")
+def lax_dagger(c, a, st, v):
+    f = a["self"]
+    c.teq(st, "dagger: sources = old targets", v.f["sources"].t, f.f["targets"].t)
+    c.teq(st, "dagger: targets = old sources", v.f["targets"].t, f.f["sources"].t)
+    same_lax_hypergraph(c, st, hyp(v), hyp(f), "dagger")
+
+
+@spec("SymmetricMonoidal for lax::open_hypergraph::OpenHypergraph<O, A>>::twist")
+def lax_twist(c, a, st, v):
+    x, y = a["a"].t, a["b"].t
+    nodes = hyp(v).f["nodes"].t
+    c.teq(st, "twist: source type a ● b", mk_gather(st, nodes, v.f["sources"].t), mk_concat([x, y]))
+    c.teq(st, "twist: target type b ● a", mk_gather(st, nodes, v.f["targets"].t), mk_concat([y, x]))
+    c.eq(st, "twist: no hyperedges", t_len(hyp(v).f["edges"].t), 0)
+
+
+@spec(f"{L_OH}::singleton")
+def lax_singleton(c, a, st, v):
+    s_, t_ = a["source_type"].t, a["target_type"].t
+    ns, nt = t_len(s_), t_len(t_)
+    h = hyp(v)
+    c.teq(st, "singleton: nodes = source type then target type", h.f["nodes"].t, mk_concat([s_, t_]))
+    c.teq(st, "singleton: sources 0..|s|", v.f["sources"].t, mk_arange(0, ns))
+    c.teq(st, "singleton: targets |s|..|s|+|t|", v.f["targets"].t, mk_arange(ns, ns + nt))
+    c.eq(st, "singleton: one hyperedge", t_len(h.f["edges"].t), 1)
+    c.eq(st, "singleton: one adjacency entry", t_len(h.f["adjacency"].t), 1)
+
+
+@spec(f"{L_OH}::from_strict")
+def lax_from_strict(c, a, st, v):
+    f = a["f"]
+    c.teq(st, "from_strict: sources = source leg", v.f["sources"].t, tab(f.f["s"]))
+    c.teq(st, "from_strict: targets = target leg", v.f["targets"].t, tab(f.f["t"]))
+    h = hyp(v)
+    c.teq(st, "from_strict: node labels", h.f["nodes"].t, f.f["h"].f["w"].f["0"].t)
+    c.teq(st, "from_strict: edge labels", h.f["edges"].t, f.f["h"].f["x"].f["0"].t)
+    c.eq(st, "from_strict: one adjacency entry per edge", t_len(h.f["adjacency"].t), t_len(f.f["h"].f["x"].f["0"].t))
+    c.eq(st, "from_strict: no pending unifications", t_len(h.f["quotient"].items[0].t) + t_len(h.f["quotient"].items[1].t), 0)
+
+
+@spec(f"{L_OH}::to_strict")
+def lax_to_strict(c, a, st, v):
+    f = a["self"]
+    h = hyp(f)
+    n = t_len(h.f["nodes"].t)
+    q = ("cc", h.f["quotient"].items[0].t, h.f["quotient"].items[1].t, n)
+    c.teq(st, "to_strict: source leg = sources through the quotient", tab(v.f["s"]), ("gather", q, f.f["sources"].t))
+    c.teq(st, "to_strict: target leg = targets through the quotient", tab(v.f["t"]), ("gather", q, f.f["targets"].t))
+    c.teq(st, "to_strict: edge labels kept", v.f["h"].f["x"].f["0"].t, h.f["edges"].t)
+    c.eq(st, "to_strict: one node per class", inv.values_len(v.f["h"].f["w"]), Poly.atom(("ncomp",) + q[1:]))
+
+
+# ---- quotient (C09)
+
+def quotient_spec(c, a, st, v, open_):
+    f = a["self"]
+    h0 = hyp(f)
+    p = post_self(c, st)
+    h1 = hyp(p)
+    n = t_len(h0.f["nodes"].t)
+    q = ("cc", h0.f["quotient"].items[0].t, h0.f["quotient"].items[1].t, n)
+    qv = v.payload[0]
+    c.teq(st, "quotient: returned map = connected components of the pending unifications", tab(qv), q)
+    c.eq(st, "quotient: returned map codomain = number of classes", tgt(qv), Poly.atom(("ncomp",) + q[1:]))
+    if v.variant == "Err":
+        # atomic failure: nothing changed
+        same_lax_hypergraph(c, st, h1, h0, "failed quotient leaves the diagram unchanged")
+        if open_:
+            same_interfaces(c, st, p, f, "failed quotient leaves the diagram unchanged")
+        return
+    c.teq(st, "quotient: every old node keeps its label (q ; new labels = old labels)",
+          ("gather", h1.f["nodes"].t, q), h0.f["nodes"].t)
+    c.eq(st, "quotient: one node per class", t_len(h1.f["nodes"].t), Poly.atom(("ncomp",) + q[1:]))
+    c.teq(st, "quotient: hyperedge labels and order untouched", h1.f["edges"].t, h0.f["edges"].t)
+    L = h0.f["adjacency"].t
+    body = VRec(LEDGE, {"sources": VSeq(("gather", q, ("el", L, "sources"))),
+                        "targets": VSeq(("gather", q, ("el", L, "targets")))})
+    want = ("lmap", L, freeze(VRec(LEDGE, {k: VSeq(normalise(st, x.t)) for k, x in body.f.items()})))
+    got = h1.f["adjacency"].t
+    ok = got == want or (L == EMPTY and got == EMPTY)
+    if not ok and got[0] == "lmap" and got[1] == L:
+        gb = lax_model.thaw(got[2])
+        ok = isinstance(gb, VRec) and all(terms_equal(st, gb.f[k].t, body.f[k].t) for k in ("sources", "targets"))
+    c.ob("ENS", "quotient: every hyperedge reference replaced by its image under q",
+         f"adjacency ≡ map(e -> (q∘e.sources, q∘e.targets)): got {show_term(got)[:300]}", ok, st)
+    c.eq(st, "quotient: pending unifications cleared", t_len(h1.f["quotient"].items[0].t) + t_len(h1.f["quotient"].items[1].t), 0)
+    if open_:
+        c.teq(st, "quotient: sources replaced by their images", p.f["sources"].t, ("gather", q, f.f["sources"].t))
+        c.teq(st, "quotient: targets replaced by their images", p.f["targets"].t, ("gather", q, f.f["targets"].t))
+
+
+@spec(f"{L_H}::quotient")
+def lax_h_quotient(c, a, st, v):
+    quotient_spec(c, a, st, v, False)
+
+
+@spec(f"{L_OH}::quotient", f"{L_OH}::quotient_witness")
+def lax_oh_quotient(c, a, st, v):
+    quotient_spec(c, a, st, v, True)
+
+
+@spec(f"{L_H}::coequalizer")
+def lax_coequalizer(c, a, st, v):
+    h = a["self"]
+    n = t_len(h.f["nodes"].t)
+    c.teq(st, "coequalizer of the two unification lists over the node set", tab(v),
+          ("cc", h.f["quotient"].items[0].t, h.f["quotient"].items[1].t, n))
+
+
+# ---- builders (C11)
+
+def builder_ctx(c, a, st):
+    f = a["self"]
+    p = post_self(c, st)
+    return f, p, hyp(f), hyp(p)
+
+
+@spec(f"{L_H}::new_node", f"{L_OH}::new_node")
+def lax_new_node(c, a, st, v):
+    f, p, h0, h1 = builder_ctx(c, a, st)
+    c.eq(st, "new_node: the identifier is fresh (old node count)", v.p, t_len(h0.f["nodes"].t))
+    c.teq(st, "new_node: one node appended", h1.f["nodes"].t, mk_concat([h0.f["nodes"].t, one(a["w"])]))
+    same_lax_hypergraph(c, st, h1, h0, "new_node", except_=("nodes",))
+    if f.ty == LOH:
+        same_interfaces(c, st, p, f, "new_node")
+
+
+@spec(f"{L_H}::new_edge", f"{L_OH}::new_edge")
+def lax_new_edge(c, a, st, v):
+    f, p, h0, h1 = builder_ctx(c, a, st)
+    c.eq(st, "new_edge: the identifier is fresh (old edge count)", v.p, t_len(h0.f["edges"].t))
+    c.teq(st, "new_edge: one edge label appended", h1.f["edges"].t, mk_concat([h0.f["edges"].t, one(a["x"])]))
+    c.teq(st, "new_edge: its source/target lists appended", h1.f["adjacency"].t,
+          mk_concat([h0.f["adjacency"].t, one(a["interface"])]))
+    same_lax_hypergraph(c, st, h1, h0, "new_edge", except_=("edges", "adjacency"))
+    if f.ty == LOH:
+        same_interfaces(c, st, p, f, "new_edge")
+
+
+@spec(f"{L_H}::unify", f"{L_OH}::unify")
+def lax_unify(c, a, st, v):
+    f, p, h0, h1 = builder_ctx(c, a, st)
+    c.teq(st, "unify: v recorded on the left", h1.f["quotient"].items[0].t,
+          mk_concat([h0.f["quotient"].items[0].t, one(a["v"])]))
+    c.teq(st, "unify: w recorded on the right", h1.f["quotient"].items[1].t,
+          mk_concat([h0.f["quotient"].items[1].t, one(a["w"])]))
+    same_lax_hypergraph(c, st, h1, h0, "unify", except_=("quotient",))
+    if f.ty == LOH:
+        same_interfaces(c, st, p, f, "unify")
+
+
+def add_edge_end(c, a, st, v, fld):
+    f, p, h0, h1 = builder_ctx(c, a, st)
+    n = t_len(h0.f["nodes"].t)
+    L = h0.f["adjacency"].t
+    i = a["edge_id"].p
+    c.eq(st, f"add_edge_{fld[:-1]}: the new node identifier is fresh", v.p, n)
+    c.teq(st, f"add_edge_{fld[:-1]}: one node appended", h1.f["nodes"].t, mk_concat([h0.f["nodes"].t, one(a["w"])]))
+    want = ("upd", L, i, (fld,), freeze(VSeq(mk_concat([("at", L, fld, i), ("fill", n, Poly.const(1))]))))
+    c.ob("ENS", f"add_edge_{fld[:-1]}: the new node is appended to the {fld} of the named edge only",
+         f"adjacency ≡ adjacency[edge_id].{fld} ++ [new node]: got {show_term(h1.f['adjacency'].t)[:300]}",
+         h1.f["adjacency"].t == want, st)
+    same_lax_hypergraph(c, st, h1, h0, f"add_edge_{fld[:-1]}", except_=("nodes", "adjacency"))
+    if f.ty == LOH:
+        same_interfaces(c, st, p, f, f"add_edge_{fld[:-1]}")
+
+
+@spec(f"{L_H}::add_edge_source", f"{L_OH}::add_edge_source")
+def lax_add_edge_source(c, a, st, v):
+    add_edge_end(c, a, st, v, "sources")
+
+
+@spec(f"{L_H}::add_edge_target", f"{L_OH}::add_edge_target")
+def lax_add_edge_target(c, a, st, v):
+    add_edge_end(c, a, st, v, "targets")
+
+
+@spec(f"{L_H}::new_operation", f"{L_OH}::new_operation")
+def lax_new_operation(c, a, st, v):
+    f, p, h0, h1 = builder_ctx(c, a, st)
+    n = t_len(h0.f["nodes"].t)
+    s_, t_ = a["source_type"].t, a["target_type"].t
+    ns, nt = t_len(s_), t_len(t_)
+    c.teq(st, "new_operation: source-type nodes then target-type nodes appended", h1.f["nodes"].t,
+          mk_concat([h0.f["nodes"].t, s_, t_]))
+    c.teq(st, "new_operation: one edge label appended", h1.f["edges"].t, mk_concat([h0.f["edges"].t, one(a["x"])]))
+    srcs, tgts = mk_arange(n, n + ns), mk_arange(n + ns, n + ns + nt)
+    edge = VRec(LEDGE, {"sources": VSeq(srcs), "targets": VSeq(tgts)})
+    c.teq(st, "new_operation: the edge connects exactly the new nodes, in order", h1.f["adjacency"].t,
+          mk_concat([h0.f["adjacency"].t, one(edge)]))
+    eid, iface = v.items
+    c.eq(st, "new_operation: the edge identifier is fresh", eid.p, t_len(h0.f["edges"].t))
+    c.teq(st, "new_operation: returns the new source nodes", iface.items[0].t, srcs)
+    c.teq(st, "new_operation: returns the new target nodes", iface.items[1].t, tgts)
+    same_lax_hypergraph(c, st, h1, h0, "new_operation", except_=("nodes", "edges", "adjacency"))
+    if f.ty == LOH:
+        same_interfaces(c, st, p, f, "new_operation")
+
+
+@spec(f"{L_H}::with_nodes", f"{L_OH}::with_nodes")
+def lax_with_nodes(c, a, st, v):
+    f = a["self"]
+    h0 = hyp(f)
+    if is_fail(v):
+        return
+    r = payload(v)
+    h1 = hyp(r)
+    c.eq(st, "with_nodes accepts only a label list of the same length", t_len(h1.f["nodes"].t), t_len(h0.f["nodes"].t))
+    same_lax_hypergraph(c, st, h1, h0, "with_nodes", except_=("nodes",))
+
+
+@spec(f"{L_H}::with_edges", f"{L_OH}::with_edges")
+def lax_with_edges(c, a, st, v):
+    f = a["self"]
+    h0 = hyp(f)
+    if is_fail(v):
+        return
+    r = payload(v)
+    h1 = hyp(r)
+    c.eq(st, "with_edges accepts only a label list of the same length", t_len(h1.f["edges"].t), t_len(h0.f["edges"].t))
+    same_lax_hypergraph(c, st, h1, h0, "with_edges", except_=("edges",))
+
+
+@spec(f"{L_H}::discrete")
+def lax_h_discrete(c, a, st, v):
+    lax_discrete(c, st, v, a["nodes"].t, "discrete")
+
+
+@spec(f"{L_H}::is_strict")
+def lax_is_strict(c, a, st, v):
+    h = a["self"]
+    want = ("cmp", "eq", t_len(h.f["quotient"].items[0].t))
+    c.ob("ENS", "is_strict ⇔ no pending unification", show_formula(v.f) if isinstance(v, VBool) else repr(v),
+         isinstance(v, VBool) and v.f == want, st)
